@@ -202,6 +202,7 @@ def run_threads(ns, ctx, spec):
     rng = ctx.rng
     # every function of the module and every method of every class defined in it (whatever helper the encoder uses)
     codes = yieldrun.code_objects_of(BF, *[v for v in vars(BF).values() if isinstance(v, type) and v.__module__ == BF.__name__])
+    codes += [c_ for c_ in yieldrun.code_objects_of_module(ns.bf3file, ns.bytes_reader) if c_ not in codes]  # module-level helpers and every class of these modules
     total = 0
     for rnd in range(spec["rounds"]):
         nthreads = (2, 3, 4)[rnd % 3]
